@@ -264,7 +264,8 @@ def c11_race_search(cx):
 PROPS["C11"] = dict(
     lean_targets=["BB.Proofs.Lockset", "BB.Conform.C11"],
     theorems=["BB.LocksetTheory.excl_step", "BB.LocksetTheory.holds_persists", "BB.LocksetTheory.conflicting_accesses_ordered",
-              "BB.Conform.C11.access_table_consistent", "BB.Conform.C11.table_covers", "BB.Conform.C11.lock_order_facts"],
+              "BB.Conform.C11.access_table_consistent", "BB.Conform.C11.table_covers", "BB.Conform.C11.lock_order_facts",
+              "BB.Conform.C11.no_captured_variable_written_after_launch", "BB.Conform.C11.combine_publishes_cleanup_after_wiring"],
     corr=[],
     custom=[c11_race_search],
     uses_extract=True,
